@@ -50,6 +50,10 @@ func K1() *Entry {
 		F("DurationStandardMissing", StdDurInt()),
 		F("DurationCustom", Sc(ir.Int64), Cast("Duration")),
 		F("DurationCustomMissing", Sc(ir.Int64), Cast("Duration")),
+		// cast types whose names merely contain the configured duration type name stay plain integers
+		F("BillingSpan", Sc(ir.Int64), Cast("BillingDuration")),
+		F("SecondsSpan", Sc(ir.Int64), Cast("DurationSeconds")),
+		F("BillingSpans", Sc(ir.Int64), Rep(), Cast("BillingDuration")),
 		F("StringList", Rep()),
 		F("StringListEmpty", Rep()),
 		F("BoolCustomList", Sc(ir.Bool), Rep(), Custom("CustomB")),
